@@ -223,7 +223,9 @@ func replay(t *testing.T) {
 		}
 	}
 	l := outLine{Kind: "run", Res: res}
-	if res.V != nil && res.V.Sig() == rf.Signature {
+	if res.V != nil {
+		// (a violation with another signature than the recorded one is reported as what it is now:
+		// classifiers added later may have given a recorded alarm its known-finding suffix)
 		l.Kind = "violation"
 		l.Sig = res.V.Sig()
 		l.Msg = res.V.Msg
